@@ -60,7 +60,7 @@ def _tensor_case(rng, shp, pat):
     return A, gen.stored_order(rng, nnz, "shuffled")
 
 
-def gen_cases(tier, seed):
+def _gen_cases(tier, seed):
     rng = gen.rng_for(seed, ID, tier)
     maxN = 4 if tier == "quick" else 5
     base = {1: (3,), 2: (2, 3), 3: (2, 3, 4), 4: (2, 3, 4, 5), 5: (2, 3, 4, 5, 3)}
@@ -133,12 +133,20 @@ def _loops_transpose(A, order):
     return out
 
 
+def gen_cases(tier, seed):
+    # dense-holder history: every third case reaches its dense operand by growth (subtensor assignment past the extent) instead of the constructor
+    for i, case in enumerate(_gen_cases(tier, seed)):
+        case["hist"] = "grown" if (i + int(seed)) % 3 == 1 else "ctor"
+        yield case
+
+
 def run_case(case, ctx):
     shape = tuple(case["shape"])
     A = np.array(case["A"], dtype=float).reshape(shape)
     nnz = int(np.count_nonzero(A))
     ctx.feat(N=len(shape), nnzc=("0" if nnz == 0 else "1" if nnz == 1 else "2+"), has_singleton=bool(1 in shape))
-    T = ttb.tensor(A.copy())
+    T = gen.mk_tensor(ttb, A, case.get("hist", "ctor"))
+    ctx.feat(hist=case.get("hist", "ctor"))
     S = gen.mk_sptensor(ttb, A, case["so"])
     w = case["w"]
     if w == "permute":
